@@ -3,6 +3,7 @@ import numpy as np
 from .. import common, driver, direct, known
 from . import _dp
 import pykoop
+import scipy.stats
 
 LEVEL = 'proof'
 PID = 'C04'
@@ -20,6 +21,8 @@ def centers_contract():
             gens += [pykoop.UniformRandomCenters(n_centers=k, random_state=1),
                      pykoop.GaussianRandomCenters(n_centers=k, random_state=1),
                      pykoop.QmcCenters(n_centers=k, random_state=1),
+                     pykoop.QmcCenters(n_centers=k, random_state=1, qmc=scipy.stats.qmc.Sobol),
+                     pykoop.QmcCenters(n_centers=k, random_state=1, qmc=scipy.stats.qmc.Halton),
                      pykoop.GaussianMixtureRandomCenters(n_centers=k),
                      pykoop.DataCenters(centers=rng.normal(size=(k, nf)))]
         gens += [pykoop.GridCenters(n_points_per_feature=k) for k in (1, 2, 3)]
